@@ -542,3 +542,134 @@ func DeepFork(rng *lib.Rng) ([]Blk, []int) {
 	}
 	return bs, ord
 }
+
+// ---------------------------------------------------------------- guard grid
+
+// GuardSpec restates what the irreversibility guard is meant to refuse
+// (C12_guard_excludes), for 0 <= d <= cur: above CRCOnlyDPOSHeight, a fork point
+// at or below LIH, or depth >= 6 in DPoS mode from RevertToPOWStartHeight on, or
+// depth > 6 before that height.
+func GuardSpec(crc, rs uint32, dpos bool, lih uint32, cur, d int) bool {
+	if uint32(cur) <= crc {
+		return false
+	}
+	if uint32(cur-d) <= lih {
+		return true
+	}
+	if uint32(cur) >= rs {
+		return dpos && d >= 6
+	}
+	return d > 6
+}
+
+// GuardGridLs are the LIH values of the grid.
+var GuardGridLs = []uint32{0, 1, 3, 6, 11, 4294967290}
+
+// GuardGrid evaluates the real State.IsIrreversible for one (crc, rs) on the
+// grid mode x LIH x cur 0..maxCur x detach 0..maxCur+1 (detach > cur exercises
+// the uint32 subtraction), in that nesting order.
+func GuardGrid(crc, rs uint32, maxCur int) ([]bool, error) {
+	f, err := fixture.New(fixture.Options{})
+	if err != nil {
+		return nil, err
+	}
+	defer f.Close()
+	st := f.Arbiters.State
+	cp := *st.ChainParams
+	cp.CRCOnlyDPOSHeight = crc
+	cp.DPoSConfiguration.RevertToPOWStartHeight = rs
+	st.ChainParams = &cp
+	var out []bool
+	for _, dpos := range []bool{false, true} {
+		if dpos {
+			st.ConsensusAlgorithm = state.DPOS
+		} else {
+			st.ConsensusAlgorithm = state.POW
+		}
+		for _, l := range GuardGridLs {
+			st.LastIrreversibleHeight = l
+			for cur := 0; cur <= maxCur; cur++ {
+				for d := 0; d <= maxCur+1; d++ {
+					out = append(out, st.IsIrreversible(uint32(cur), d))
+				}
+			}
+		}
+	}
+	return out, nil
+}
+
+// CoqGuardGrid prints the grid as a C12_corr.GuardGrid term.
+func CoqGuardGrid(id int, crc, rs uint32, maxCur int, outs []bool) string {
+	var sb strings.Builder
+	ls := make([]string, len(GuardGridLs))
+	for i, l := range GuardGridLs {
+		ls[i] = fmt.Sprintf("%d", l)
+	}
+	fmt.Fprintf(&sb, "GuardGrid %d %d %d [%s] %d [", id, crc, rs, strings.Join(ls, ";"), maxCur)
+	for i, o := range outs {
+		if i > 0 {
+			sb.WriteByte(';')
+		}
+		if o {
+			sb.WriteString("true")
+		} else {
+			sb.WriteString("false")
+		}
+	}
+	sb.WriteString("]")
+	return sb.String()
+}
+
+// ---------------------------------------------------------------- height regimes
+
+// RegimeFork builds an in-order history with the irreversibility machinery on,
+// in one of the three height regimes (all heights at or below CRCOnlyDPOSHeight:
+// guard off; between CRCOnlyDPOSHeight and RevertToPOWStartHeight; at or above
+// RevertToPOWStartHeight) and one of the consensus modes (DPoS throughout, PoW
+// throughout, DPoS then reverted to PoW): a trunk of 10-16 blocks and one fork
+// 1-12 below the tip that ends one block higher than the trunk.
+func RegimeFork(rng *lib.Rng) *Hist {
+	trunk := rng.Range(10, 16)
+	var crc, rs uint32
+	regime := rng.Intn(3)
+	switch regime {
+	case 0:
+		crc, rs = 100, 200
+	case 1:
+		crc, rs = uint32(rng.Range(1, 3)), 100
+	default:
+		crc, rs = uint32(rng.Range(1, 3)), uint32(rng.Range(7, 9))
+	}
+	sw := rng.Range(8, trunk)
+	var mode func(h int) bool
+	mname := ""
+	switch rng.Intn(3) {
+	case 0:
+		mode, mname = func(h int) bool { return true }, "dpos"
+	case 1:
+		mode, mname = func(h int) bool { return false }, "pow"
+	default:
+		mode, mname = func(h int) bool { return h < sw }, "revert"
+	}
+	depth := rng.Range(1, 12)
+	if depth > trunk {
+		depth = trunk
+	}
+	forkAt := trunk - depth
+	var bs []Blk
+	prev := 0
+	for h := 1; h <= trunk; h++ {
+		bs = append(bs, Blk{ID: len(bs) + 1, Parent: prev, Dpos: mode(h)})
+		prev = len(bs)
+	}
+	prev = forkAt
+	for k := 1; k <= depth+1; k++ {
+		bs = append(bs, Blk{ID: len(bs) + 1, Parent: prev, Dpos: mode(forkAt + k)})
+		prev = len(bs)
+	}
+	ord := make([]int, len(bs))
+	for i := range ord {
+		ord[i] = i + 1
+	}
+	return &Hist{Name: fmt.Sprintf("regime%d-%s-d%d", regime, mname, depth), Blocks: bs, Order: ord, Irr: true, CRC: crc, RS: rs}
+}
